@@ -459,7 +459,7 @@ func Serve(opts Options) error {
 		return err
 	}
 	if opts.AppendOnly {
-		f, err := os.OpenFile(opts.AppendFileName, os.O_CREATE|os.O_RDWR, 0600)
+		f, err := openAppendFile(opts.AppendFileName)
 		if err != nil {
 			return err
 		}
